@@ -37,9 +37,16 @@ Definition Qsin_t (x : Q) : Q := let x := Qtr x in Qtaylor_t 16 (Qtr (x * x)) x 
 Definition Qsqrt_t (x : Q) : Q :=
   if (Qnum x <=? 0)%Z then 0%Q else Z.sqrt (Qnum x * 2 ^ 144 / Zpos (Qden x)) # (2 ^ 72).
 
+(* a/d + b/d = (a+b)/d: sums of terms with a common denominator keep it (Qplus would square it); the harness
+   prints the components of one vector / matrix over a common power of two, so sums of products stay small *)
+Definition Qadd_s (x y : Q) : Q :=
+  if Pos.eqb (Qden x) (Qden y) then (Qnum x + Qnum y) # Qden x else Qplus x y.
+Definition Qsub_s (x y : Q) : Q :=
+  if Pos.eqb (Qden x) (Qden y) then (Qnum x - Qnum y) # Qden x else Qminus x y.
+
 Definition Qx_carrier : Carrier Q := {|
   c0 := 0%Q; c1 := 1%Q;
-  cadd := Qplus; cmul := Qmult; csub := Qminus; copp := Qopp; cdiv := Qdiv;
+  cadd := Qadd_s; cmul := Qmult; csub := Qsub_s; copp := Qopp; cdiv := Qdiv;
   csqrt := Qsqrt_t; cabs := Qabs; cmax := Qmaxb; cmin := Qminb;
   csin := Qsin_t; ccos := Qcos_t; cpi := Qpi;
   cltb := Qltb; cleb := Qle_bool; ceqb := Qeq_bool;
@@ -92,6 +99,8 @@ Inductive case :=
 | CQuat (tol : Q) (q1 q2 v prod r2 r12 r1 : list Q)
 (* q = RotationTo a b; ra = Rotate q a; want: what a must be mapped to (b, or -a / a in the near-degenerate branches) *)
 | CRotTo (tol : Q) (a b q ra want : list Q)
+(* out = Normalize q (q non-zero, of any magnitude); tolq = tolerance scaled by |q| for the direction test *)
+| CNorm (tol tolq : Q) (q out : list Q)
 (* q = FromTheta theta axis; rv = Rotate q v; rax = Rotate q axis *)
 | CTheta (tol : Q) (theta : Q) (axis v q rv rax : list Q)
 (* out = trs.New(p, q, s).Transform(v); viaCtor = the same through Position/Scale/Rotation-only constructors when applicable *)
@@ -138,6 +147,7 @@ Definition corr_ok (k : case) : bool :=
   | CRotTo tol a b q ra want =>
       let Qm := Quat.RotationTo (v3_of a) (v3_of b) in
       closel tol (quat_to Qm) q && closel tol (v3_to (Quat.Quaternion_Rotate Qm (v3_of a))) ra
+  | CNorm tol tolq q out => closel tol (quat_to (Quat.Quaternion_Normalize (quat_of q))) out
   | CTheta tol theta axis v q rv rax =>
       let Qm := Quat.FromTheta theta (v3_of axis) in
       closel tol (quat_to Qm) q && closel tol (v3_to (Quat.Quaternion_Rotate Qm (v3_of v))) rv
@@ -233,6 +243,11 @@ Definition prop_ok (k : case) : bool :=
       closel tol r2 (v3_to (rotate_spec (quat_of q2) (v3_of v)))
   | CRotTo tol a b q ra want =>
       lenb 4 q && lenb 3 ra && closel tol ra want && close tol (qnorm2l q) 1
+  | CNorm tol tolq q out =>
+      (* unit length, same direction: out_i q_j = out_j q_i and out . q > 0 *)
+      lenb 4 out && close tol (qnorm2l out) 1 &&
+      forallb (fun i => forallb (fun j => close tolq (qn out i * qn q j) (qn out j * qn q i))%Q [0; 1; 2; 3]) [0; 1; 2; 3] &&
+      Qltb 0 (qdot out q + qn out 3 * qn q 3)%Q
   | CTheta tol theta axis v q rv rax =>
       lenb 4 q && lenb 3 rv && close tol (qnorm2l q) 1 && close tol (qdot rv rv) (qdot v v) && closel tol rax axis
   | CTrs tol p s q v out =>
